@@ -300,30 +300,43 @@ func (mc *monitoredConn) stopMonitoring() {
 func (gme *GCPMultiEndpoint) UpdateMultiEndpoints(meOpts *GCPMultiEndpointOptions) error {
 	gme.mu.Lock()
 	defer gme.mu.Unlock()
+	// Validate the options before changing anything.
 	if _, ok := meOpts.MultiEndpoints[meOpts.Default]; !ok {
 		return fmt.Errorf("default MultiEndpoint %q missing options", meOpts.Default)
 	}
 
 	validPools := make(map[string]bool)
-	for _, meo := range meOpts.MultiEndpoints {
+	for name, meo := range meOpts.MultiEndpoints {
+		if meo == nil || len(meo.Endpoints) == 0 {
+			return fmt.Errorf("MultiEndpoint %q: endpoints list cannot be empty", name)
+		}
 		for _, e := range meo.Endpoints {
 			validPools[e] = true
 		}
 	}
 
-	// Add missing pools.
+	// Dial missing pools. Nothing is changed if any dial fails.
+	newConns := make(map[string]*grpc.ClientConn)
 	for e := range validPools {
 		if _, ok := gme.pools[e]; !ok {
 			// This creates a ClientConn with the gRPC-GCP balancer managing connection pool.
 			conn, err := gme.dialFunc(context.Background(), e, gme.opts...)
 			if err != nil {
+				for _, c := range newConns {
+					c.Close()
+				}
 				return err
 			}
-			if gme.log.V(FINE) {
-				gme.log.Infof("created new channel pool for %q endpoint.", e)
-			}
-			gme.pools[e] = newMonitoredConn(e, conn, gme)
+			newConns[e] = conn
 		}
+	}
+
+	// Add missing pools.
+	for e, conn := range newConns {
+		if gme.log.V(FINE) {
+			gme.log.Infof("created new channel pool for %q endpoint.", e)
+		}
+		gme.pools[e] = newMonitoredConn(e, conn, gme)
 	}
 
 	// Add new multi-endpoints and update existing.
@@ -340,6 +353,7 @@ func (gme *GCPMultiEndpoint) UpdateMultiEndpoints(meOpts *GCPMultiEndpointOption
 		}
 		me, err := multiendpoint.NewMultiEndpoint(meo)
 		if err != nil {
+			// Cannot happen: the endpoints list was validated above.
 			return err
 		}
 		gme.mes[name] = me
